@@ -151,17 +151,20 @@ var c01Backends = []string{"memdb", "memdb", "goleveldb", "pebbledb", "boltdb"}
 func TestC01_Replay(t *testing.T) {
 	vk.Run(t, vk.Spec[c01Case]{
 		ID: "C01", Name: "TestC01_Replay",
-		Rule: "rapid: history (2-5 accounts, library realms deployed in block 1, then 3-8 blocks of 0-5 txs of 1-3 msgs: sends, realm calls incl. multi-realm and panicking ones, package deployments incl. invalid ones, MsgRun scripts; gas ample/tight/tiny) executed under a reference configuration and 2-3 generated configurations (backend in memdb/goleveldb/pebbledb/boltdb, restart mask over block boundaries, GOMAXPROCS 1|16, stdlib cache on/off, or an exact repeat); non-trivial = >=1 successful VM tx and a restart at a later block boundary in some configuration; distinct by (history, configs)",
+		Rule: "rapid: history (2-5 accounts, library realms deployed in block 1, then 3-6 blocks of 0-5 txs of 1-3 msgs: sends, realm calls incl. multi-realm and panicking ones, package deployments incl. invalid ones, MsgRun scripts; gas ample/tight/tiny) executed under a reference configuration and 2 generated configurations (backend in memdb/goleveldb/pebbledb/boltdb, 0-2 restarts at drawn block boundaries, GOMAXPROCS 1|16, stdlib cache on/off, or an exact repeat); non-trivial = >=1 successful VM tx and a restart at a later block boundary in some configuration; distinct by (history, configs)",
 		Draw: func(rt *rapid.T) c01Case {
-			h := ec.DrawHistory(rt, 3, 8, 5)
-			n := rapid.IntRange(2, 3).Draw(rt, "nconf")
+			h := ec.DrawHistory(rt, 3, 6, 5)
+			n := 2
 			var cfs []c01Config
 			for i := 0; i < n; i++ {
 				cf := c01Config{Backend: rapid.SampledFrom(c01Backends).Draw(rt, "backend")}
 				cf.Procs = rapid.SampledFrom([]int{0, 1, 16}).Draw(rt, "procs")
 				cf.NoCache = rapid.IntRange(0, 4).Draw(rt, "nocache") == 0
-				for range h.Blocks {
-					cf.Restarts = append(cf.Restarts, rapid.IntRange(0, 3).Draw(rt, "restart") == 0)
+				// 0-2 restarts at drawn block boundaries (a restart costs 1-5 s:
+				// the VM re-loads and re-preprocesses every stdlib)
+				cf.Restarts = make([]bool, len(h.Blocks))
+				for k := rapid.IntRange(0, 2).Draw(rt, "nrestarts"); k > 0; k-- {
+					cf.Restarts[rapid.IntRange(0, len(h.Blocks)-1).Draw(rt, "restartAt")] = true
 				}
 				cfs = append(cfs, cf)
 			}
